@@ -311,6 +311,21 @@ def run_c10(tier):
         for fl in ([], ["--stub"]):
             extra.append(("device-full" + "".join(fl), BASE, fl, "/dev/full"))
             extra.append(("device-full-big" + "".join(fl), BASE + "parameters:\n" + "".join("  q%d: %d\n" % (i, i) for i in range(400)), fl, "/dev/full"))
+    # configurations of other families (every grammar defect class alone and in pairs, random dependency graphs with cycles, dangling
+    # references and scope violations under every flag combination): whatever the tool decides, the run must obey the protocol
+    from .. import concretise, randcfg
+    from . import grammar
+    import itertools
+    kinds = sorted(grammar.DEFECTS)
+    subsets = [(k,) for k in kinds] + rng.sample(list(itertools.combinations(kinds, 2)), 30 if tier == "quick" else 150)
+    for sub in subsets:
+        doc = grammar.base_doc()
+        for k in sub:
+            grammar.DEFECTS[k][0](doc)
+        extra.append(("grammar-" + "+".join(sub), concretise.emit(doc, rng) + "\n", [], "out.go"))
+    for k in range(40 if tier == "quick" else 400):
+        fl = [f for f in ("--ignore-missing-params", "--ignore-missing-services", "--stub") if rng.random() < 0.3]
+        extra.append(("random-graph", concretise.to_yaml(randcfg.deps_cfg(rng), rng), fl, "out.go"))
     xjobs = []
     for i, (label, y, xargs, outp) in enumerate(extra):
         for mode in ("drv", "proc"):
@@ -337,8 +352,8 @@ def run_c10(tier):
         pre, post = res["pre"], res["post"]
         same = (post.get("kind"), post.get("sha")) == (pre.get("kind"), pre.get("sha"))
         outstate = ("new" if post.get("kind") == "file" and not same else "other") if res["exit"] == 0 else ("pre" if same else "other")
-        sc = {"pats": ["good1"], "defects": [], "quiet": False, "stub": "--stub" in j["args"], "ignoreP": False, "ignoreS": False,
-              "outpre": "file" if outp == "out.go" else "absent", "free": True}
+        sc = {"pats": ["good1"], "defects": [], "quiet": False, "stub": "--stub" in j["args"], "ignoreP": "--ignore-missing-params" in j["args"],
+              "ignoreS": "--ignore-missing-services" in j["args"], "outpre": "file" if outp == "out.go" else "absent", "free": True}
         xtraces.append(events_of(sc, res, outstate))
         xown.append((case, res))
         p = subprocess.run([tool, "build"] + j["args"], cwd=j["dir"].replace("x-drv-", "x-proc-"), stdout=subprocess.PIPE, stderr=subprocess.PIPE, timeout=120)
